@@ -4,3 +4,4 @@
    The correspondence checks evaluate the models with these constants against the code. *)
 Definition fixed_F02 : bool := true.    (* bound / membership failures counted under fix|update *)
 Definition fixed_F17 : bool := true.    (* triple_quote: final quote not escaped twice *)
+Definition fixed_F04 : bool := true.    (* unused externals removed only when trim itself is given *)
